@@ -1321,6 +1321,7 @@ func c06Scratch() (cleanup func()) {
 func c06Run(c *core.Ctx) {
 	defer c06Scratch()()
 	r := newC06Runner()
+	c06EncRun(c)
 	if c.Thorough() {
 		c06SplitRun(c, r, 6)
 		// T1: full alphabet, depth 3, every candidate replayed
@@ -1346,6 +1347,98 @@ func c06Run(c *core.Ctx) {
 	}
 }
 
+// ---------------------------------------------------------------- part 3: $0 rebuilt in CSV / TSV output mode
+//
+// Every field list of <= 3 fields over values that matter to the encoder (CR
+// inside / alone / trailing, quote, separator, leading space, newline, "\.",
+// empty) is assigned field by field; the rebuilt $0 must be the CSV encoding
+// of the fields (csv mode: encoding/csv's writer is the definition) and must
+// be exactly what `print $1, ..., $n` writes (both modes).
+
+var c06EncVals = []string{"", "a", "c\rd", "\r", "e\r", "q\"r", "s,t", " x", "l\nm", "\\.", "t\tu", "\xc3\xa9"}
+
+type c06EncCase struct {
+	Part   string   `json:"part"`
+	Mode   string   `json:"mode"`
+	Fields []string `json:"fields"`
+	ViaNF  bool     `json:"via_nf"`
+}
+
+func c06EncEval(c *core.Ctx, cs c06EncCase) {
+	var got []string
+	funcs := map[string]any{"o": func(s string) { got = append(got, s) }}
+	var b strings.Builder
+	b.WriteString("BEGIN { OUTPUTMODE = \"" + cs.Mode + "\"; ")
+	var args []string
+	if cs.ViaNF {
+		// fields set while $0 is rebuilt by an NF assignment at the end
+		for i := range cs.Fields {
+			fmt.Fprintf(&b, "$%d = ARGV[%d]; ", i+1, i+1)
+		}
+		fmt.Fprintf(&b, "NF = %d; ", len(cs.Fields))
+	} else {
+		for i := range cs.Fields {
+			fmt.Fprintf(&b, "$%d = ARGV[%d]; ", i+1, i+1)
+		}
+	}
+	for i := range cs.Fields {
+		args = append(args, fmt.Sprintf("$%d", i+1))
+	}
+	b.WriteString("o($0); ARGC = 1; print " + strings.Join(args, ", ") + " }")
+	prog := awk.MustParse(b.String(), funcs)
+	res := awk.Exec(prog, &interp.Config{Funcs: funcs, Args: cs.Fields, NoArgVars: true})
+	c.Eval(1)
+	c.Add("transitions", 1)
+	if res.Panic != "" || res.Err != nil {
+		c.Fail("enc:run-failed_mode="+cs.Mode, cs, fmt.Sprintf("panic=%s err=%v", firstLine(res.Panic), res.Err))
+		return
+	}
+	if len(got) != 1 {
+		panic("c06 part 3: observation function not called")
+	}
+	c.Outcome("enc " + got[0])
+	if got[0]+"\n" != res.Out {
+		c.Fail("enc:rebuilt-record-differs-from-printed-fields_mode="+cs.Mode, cs, fmt.Sprintf("$0=%q, print of the fields wrote %q", got[0], res.Out))
+		return
+	}
+	if cs.Mode == "csv" {
+		if want := c06CSVJoin(cs.Fields); got[0] != want {
+			c.Fail("enc:rebuilt-record-is-not-the-csv-encoding", cs, fmt.Sprintf("$0=%q want %q", got[0], want))
+		}
+	}
+}
+
+func c06EncRun(c *core.Ctx) {
+	for n := 1; n <= 3; n++ {
+		idx := make([]int, n)
+		for {
+			if c.Mine() && !c.Expired() {
+				fields := make([]string, n)
+				for i, k := range idx {
+					fields[i] = c06EncVals[k]
+				}
+				c.Add("states", 1)
+				for _, mode := range []string{"csv", "tsv"} {
+					c06EncEval(c, c06EncCase{Part: "enc", Mode: mode, Fields: fields})
+					c06EncEval(c, c06EncCase{Part: "enc", Mode: mode, Fields: fields, ViaNF: true})
+				}
+			}
+			k := n - 1
+			for k >= 0 {
+				idx[k]++
+				if idx[k] < len(c06EncVals) {
+					break
+				}
+				idx[k] = 0
+				k--
+			}
+			if k < 0 {
+				break
+			}
+		}
+	}
+}
+
 func c06Replay(c *core.Ctx, raw json.RawMessage) {
 	defer c06Scratch()()
 	r := newC06Runner()
@@ -1353,6 +1446,14 @@ func c06Replay(c *core.Ctx, raw json.RawMessage) {
 		Part string `json:"part"`
 	}
 	json.Unmarshal(raw, &probe)
+	if probe.Part == "enc" {
+		var cs c06EncCase
+		if err := json.Unmarshal(raw, &cs); err != nil {
+			panic(err)
+		}
+		c06EncEval(c, cs)
+		return
+	}
 	if probe.Part == "split" {
 		var cs c06SplitCase
 		if err := json.Unmarshal(raw, &cs); err != nil {
@@ -1382,6 +1483,7 @@ func init() {
 			"thorough: (T1) breadth-first to depth 3 over the full 106-operation alphabet x 42 starts, every candidate replayed; (T2) breadth-first to depth 5 over the 40-operation alphabet x 42 starts with " +
 			"de-duplication on the model state (one visited set for all starts), every retained history replayed, every discarded equivalent history up to depth 4 and every 20th at depth 5 replayed too " +
 			"(same model state reached another way => same dump). states = retained model states (quick: start x history pairs), transitions = histories replayed. " +
+			"Part 3: every field list of <=3 fields over 12 encoder-relevant values (CR inside/alone/trailing, quote, separator, leading space, newline, \\., tab, empty, multi-byte) assigned field by field (and via NF) in csv and tsv output mode: the rebuilt $0 must equal what print of the fields writes and (csv) encoding/csv's encoding. " +
 			"Part 2: FS splitting rules on every string up to length 6 (quick 5) over 5-symbol alphabets x 8 FS values (space [also with newline in the alphabet], comma, tab, '.', '|', ab, a|ab, a*), three read orders, " +
 			"plus every ordered pair (FS when the record was read, FS assigned before the first field access) and the re-split by $0=$0; records delivered in one run per batch with RS=';'. " +
 			"distinct = distinct observed final dumps",
